@@ -1,7 +1,6 @@
 package harness
 
 import (
-	"crypto/tls"
 	"errors"
 	"fmt"
 	"sort"
@@ -62,9 +61,13 @@ var c20KnownFormats = []string{
 	"Tracker.", "Channel.", "Nick.", "irc.Connect(): Cannot connect to %s, already connected.", "irc.311(): received WHOIS info for unknown nick %s", "irc.JOIN(): JOIN to unknown channel %s received ",
 }
 
-type c20Mode struct{ Neg, Track bool }
+type c20Mode struct{ Neg, Track, Direct bool } // Direct: no proxy configured, internalConnect dials itself
 
 func (m c20Mode) String() string {
+	if m.Direct {
+		m.Direct = false
+		return m.String() + "+direct"
+	}
 	switch {
 	case m.Neg && m.Track:
 		return "both"
@@ -76,7 +79,7 @@ func (m c20Mode) String() string {
 	return "plain"
 }
 
-var c20Modes = []c20Mode{{false, false}, {true, false}, {false, true}, {true, true}}
+var c20Modes = []c20Mode{{false, false, false}, {true, false, false}, {false, true, false}, {true, true, false}, {false, false, true}, {true, true, true}}
 
 // outcomes: normal | eof0 | writeerrK (K = 1..4: the K-th socket write fails; the server sends the
 // welcome and a PING once the registration lines are out, so the writes are, in order, [CAP LS,]
@@ -221,6 +224,9 @@ func c20Scenario(pwIdx int, pw string, m c20Mode, outcome string) *explore.Scena
 	sc.Main = func(env *vx.Env) {
 		c := NewClient("me", func(cfg *client.Config) {
 			cfg.Pass = pw
+			if m.Direct {
+				cfg.Proxy = ""
+			}
 			if m.Neg {
 				cfg.EnableCapabilityNegotiation = true
 				cfg.Capabilites = []string{"multi-prefix"}
@@ -230,7 +236,7 @@ func c20Scenario(pwIdx int, pw string, m c20Mode, outcome string) *explore.Scena
 			}
 			if strings.HasPrefix(outcome, "tls-") {
 				cfg.SSL = true
-				cfg.SSLConfig = &tls.Config{InsecureSkipVerify: true}
+				cfg.SSLConfig = FailingTLS()
 			}
 		})
 		if m.Track {
@@ -463,10 +469,10 @@ func c20EnumJob(name string, idx []int, pws []string) Job {
 func init() {
 	Register(&Prop{
 		ID:   "C20",
-		Rule: "passwords = marker \"Zq7Pw\" + variant and \"x\" + marker + variant for variant ∈ {p, PASS, ' lead', 'a b', ':c', '%s%d%!', '\\', '\\x01x', 600×z} (18 designed), plus marker + every printable ASCII byte (95) and a length ladder 1..2000 (12) (thorough: + pairs of IRC/fmt/mask-significant bytes around the marker and fmt/IRC look-alikes); sessions = {plain, negotiation, tracking, both} × outcome {normal welcome + 11 lines + EOF, EOF at once, write error on write 1..4, dial error, empty cfg.Server, TLS handshake answered in plain text / by EOF, a second password (other marker) sent with Conn.Pass after registration, ConnectTo(other host, second password) while connected followed by Conn.Pass(first), Config.Pass overwritten (second password / empty) as soon as Connect returns}; enumeration jobs run every (password, session) once under the default schedule; exploration jobs run the failing-connection sessions of the 18 designed passwords under every schedule within the deviation budgets; the capturing logger records all four levels; distinct = distinct (password, session, sequence of (level, format) records, number of masked PASS records) resp. distinct canonical observation per explored scenario",
+		Rule: "passwords = marker \"Zq7Pw\" + variant and \"x\" + marker + variant for variant ∈ {p, PASS, ' lead', 'a b', ':c', '%s%d%!', '\\', '\\x01x', 600×z} (18 designed), plus marker + every printable ASCII byte (95) and a length ladder 1..2000 (12) (thorough: + pairs of IRC/fmt/mask-significant bytes around the marker and fmt/IRC look-alikes); sessions = {plain, negotiation, tracking, both, plain without proxy, both without proxy} × outcome {normal welcome + 11 lines + EOF, EOF at once, write error on write 1..4, dial error, empty cfg.Server, TLS handshake answered in plain text / by EOF, a second password (other marker) sent with Conn.Pass after registration, ConnectTo(other host, second password) while connected followed by Conn.Pass(first), Config.Pass overwritten (second password / empty) as soon as Connect returns}; enumeration jobs run every (password, session) once under the default schedule; exploration jobs run the failing-connection sessions of the 18 designed passwords under every schedule within the deviation budgets; the capturing logger records all four levels; distinct = distinct (password, session, sequence of (level, format) records, number of masked PASS records) resp. distinct canonical observation per explored scenario",
 		Assumptions: []string{
 			"the server never sends the password (recv logs every received line); asserted by the harness precondition",
-			"all connections go through the in-memory proxy dialler, so the direct-dial branch of internalConnect (one Info record with cfg.Server) is not executed; the TLS branch is executed with a handshake that fails (plain-text answer, EOF), never with one that succeeds",
+			"connections go through the in-memory network either via the registered proxy type or (modes +direct) via the Dialer shim that replaces net.Dialer in the instrumented copy; the TLS branch is executed with a handshake that fails (plain-text answer, EOF), never with one that succeeds",
 			"a record 'contains the password' if its format, its rendering, or one argument rendered alone (fmt.Sprint, %v, %s, %q, %+v, %#v) contains the password or its Go-quoted form; pointers reachable from an argument but not printed by these verbs are not followed",
 			"crash / deadlock outcomes of explored schedules belong to C06 / C07 and are not reported here; their records are still judged",
 		},
